@@ -28,6 +28,7 @@ size_t G_in, G_done; int G_reads, G_completed, G_disc, G_err, G_read_after_err, 
 #undef coap_pdu_parse_size
 #include "src/coap_encode.c"
 #define ALLOC_CAP 176            /* every block is a constant-size object: sizeof(coap_pdu_t) and header + RCVMAX fit */
+#define VH_REALLOC_NO_COPY
 #define VH_ALLOC_FAIL_HOOK() (G_alloc_fail_seen = 1)
 #include "stubs/alloc_bounded.h"
 #include "stubs/time_prng.h"
